@@ -270,7 +270,7 @@ def selection_applies(rnd, tier):
     masked variables - also where unmasked cells hold inf / nan (T6): every
     cell moves with its mask and its value."""
     dims = {'T2': ['t', 'z', 'x'], 'T6': ['t', 'x'], 'T7': ['t', 'z', 'y', 'x'],
-            'T4': ['t', 'y', 'x']}
+            'T4': ['t', 'y', 'x'], 'T11': ['t', 'lev']}
     progs = []
     for t in sorted(dims):
         for d in dims[t]:
@@ -278,6 +278,15 @@ def selection_applies(rnd, tier):
                 progs.append({'templates': [t], 'steps': [{
                     'act': 'apply', 'src': 1, 'others': [], 'args': {
                         'funcs': [{'d': d, 'kind': 'callable', 'f': fn}]}}]})
+            if t == 'T11':
+                # a dimension used twice by one variable: reducers and other
+                # functions run along both axes
+                for fn, kind in (('mean', 'reducer'), ('sum', 'reducer'),
+                                 ('max', 'reducer'), ('conv121s', 'callable'),
+                                 ('diff', 'callable')):
+                    progs.append({'templates': [t], 'steps': [{
+                        'act': 'apply', 'src': 1, 'others': [], 'args': {
+                            'funcs': [{'d': d, 'kind': kind, 'f': fn}]}}]})
     return progs
 
 
